@@ -909,3 +909,44 @@ def r20_edge_products_in_wide_type(ck, P, rid='C12-R20'):
                 ck.violation(R, f.name, 'product with %s' % fld, '%s multiplies %s by a variable factor in %s (%s): the product of a 16.16 row distance and a 16.16 increment does not fit, wraps, and the carry into x computed from it puts the edge at an unrelated abscissa for steps of a pixel and more' % (f.name, fld, x.ty, x.loc()), x.loc())
     if n == 0:
         raise AnalysisBroken('%s: no product with pixman_edge.dx / dy found' % rid)
+
+
+def r21_raw_rasterisers_consult_the_clip(ck, P, rid='C03-R17'):
+    """T-GRD across entry points: the edge rasteriser writes straight into an image's bits.  Every exported function that hands its own
+    image parameter to it (directly or through another exported rasterising function) does so only after the image's clip has been
+    looked at - pixman_composite_trapezoids takes its direct route under !have_clip_region and otherwise goes through the compositor,
+    which clips."""
+    R = ck.rule(rid, 'every exported function that passes its own image parameter to the edge rasteriser (pixman_rasterize_edges), or to another exported function that does, has a test of that image\'s have_clip_region among the guards of the call: pixman_add_traps, pixman_add_trapezoids and pixman_rasterize_trapezoid draw outside the destination clip (a 16x16 a8 image with a 4x4 clip: 240 pixels outside it change), where pixman_composite_trapezoids with the same shape changes none', floor=2)
+    raw = {g for g in P.functions() if g.name == 'pixman_rasterize_edges'}
+    if not raw:
+        raise AnalysisBroken('%s: pixman_rasterize_edges not found' % rid)
+    n = 0
+    changed = True
+    sites = []
+    while changed:
+        changed = False
+        for f in common.public_api(P):
+            if f in raw:
+                continue
+            for c in f.calls():
+                g = P.resolve(f, c.callee) if isinstance(c.callee, str) else None
+                if g not in raw or not c.a or f.strip_casts(c.a[0])[0] != 'a':
+                    continue
+                k = f.strip_casts(c.a[0])[1]
+                guarded = False
+                for t, s in f.guard_edges(c.bb.id):
+                    if t.a and any(a[0] == 'field' and a[1] == 'image_common.have_clip_region' for a in f.atoms(t.a[0])):
+                        guarded = True
+                if (f, c.i) not in [(q[0], q[1].i) for q in sites]:
+                    sites.append((f, c, k, guarded, g))
+                if not guarded and f not in raw:
+                    raw.add(f); changed = True
+    for f, c, k, guarded, g in sites:
+        n += 1; ck.saw(f)
+        where = '%s: %s handed to %s at %s' % (f.name, f.params[k][0], g.name, c.loc())
+        if guarded:
+            ck.ok(R, where, 'under a test of have_clip_region')
+        else:
+            ck.violation(R, f.name, 'rasterises into %s without consulting its clip' % f.params[k][0], '%s hands its image parameter %s to %s (%s) on a path that has not looked at the image\'s clip region: the shape is rasterised into every row and column of the image it covers, also outside the destination clip (and into the image\'s own bits when it has an alpha map)' % (f.name, f.params[k][0], g.name, c.loc()), c.loc())
+    if n == 0:
+        raise AnalysisBroken('%s: no exported caller of the edge rasteriser found' % rid)
